@@ -426,6 +426,7 @@ var taintName = map[string]string{
 	"merge":       "spill-merge-of-comparator-equal-keys",
 	"release":     "sorted-release-missing-vs-null",
 	"nilmaxspill": "nil-maxspillkey",
+	"descnulls":   "desc-input-from-sort-has-nulls-last",
 }
 
 func crashSig(msg string) string {
@@ -676,9 +677,12 @@ func judgeGB(c *core.Ctx, j *gbJob, r result) error {
 	switch {
 	case match != nil && len(match.Taint) > 0:
 		// exactly what the transcription predicts through a known-defect path
-		if match.hasTaint("merge") {
+		switch {
+		case match.hasTaint("descnulls"):
+			sig = "gb:" + taintName["descnulls"]
+		case match.hasTaint("merge"):
 			sig = "gb:" + taintName["merge"]
-		} else {
+		default:
 			sig = "gb:" + taintName["release"]
 		}
 	case j.How == "fork" && anyTaint(j.Case, "merge") && coarse(flat) == coarseInput(j.Rows):
